@@ -340,9 +340,12 @@ def compare(ck, cases, impl_out, model_out, spec_out):
 
 
 def run_cases(ck, cases, exe_impl, exe_model):
-    rc1, impl_out, e1 = core.run_sharded(exe_impl, [], cases)
-    rc2, model_out, e2 = core.run_sharded(exe_model, [], cases)
-    rc3, spec_out, e3 = core.run_sharded(exe_model, ["spec"], cases)
+    import concurrent.futures as cf
+    with cf.ThreadPoolExecutor(max_workers=3) as ex:
+        f1 = ex.submit(core.run_sharded, exe_impl, [], cases)
+        f2 = ex.submit(core.run_sharded, exe_model, [], cases)
+        f3 = ex.submit(core.run_sharded, exe_model, ["spec"], cases)
+        (rc1, impl_out, e1), (rc2, model_out, e2), (rc3, spec_out, e3) = f1.result(), f2.result(), f3.result()
     if rc1 or rc2 or rc3:
         ck.obligation("correspondence-run", "internal", False, "rc=%s/%s/%s %s %s %s" % (rc1, rc2, rc3, e1, e2, e3))
     compare(ck, cases, impl_out, model_out, spec_out)
@@ -352,7 +355,7 @@ def run_cases(ck, cases, exe_impl, exe_model):
 def generate(ck):
     rng = core.SplitMix64(ck.seed * 1000003 + 17)
     cases = []
-    n = 3000 if ck.tier == "quick" else 60000
+    n = 2000 if ck.tier == "quick" else 60000
     for i in range(n):
         B = rng.choice(BS)
         profile = rng.weighted([("small", 3), ("deep", 4), ("slice", 3), ("mixed", 2)])
